@@ -8,8 +8,11 @@ import (
 	"crypto/aes"
 	"fmt"
 	"go/ast"
+	"go/parser"
+	"go/printer"
 	"go/token"
 	"os"
+	"path/filepath"
 	"sort"
 	"strconv"
 	"strings"
@@ -21,6 +24,7 @@ import (
 
 	"github.com/gotd/td/bin"
 	"github.com/gotd/td/crypto"
+	"github.com/gotd/td/mt"
 	"github.com/gotd/td/mtproto"
 	"github.com/gotd/td/proto"
 	"github.com/gotd/td/transport"
@@ -292,6 +296,169 @@ func facts(f *hc.Facts) {
 	consumeShape(f)
 	checkMessageIDShape(f)
 	decryptMessageShape(f)
+	acceptanceStateWriters(f)
+}
+
+// pkgFuncs parses the non-test, non-hook files of a package directory and returns its function
+// declarations keyed by "Recv.Name" / "Name".
+func pkgFuncs(f *hc.Facts, dir string) map[string]*ast.FuncDecl {
+	out := map[string]*ast.FuncDecl{}
+	ents, _ := os.ReadDir(filepath.Join(f.Repo, dir))
+	fset := token.NewFileSet()
+	for _, e := range ents {
+		n := e.Name()
+		if e.IsDir() || !strings.HasSuffix(n, ".go") || strings.HasSuffix(n, "_test.go") || strings.HasPrefix(n, "verif_") {
+			continue
+		}
+		af, err := parser.ParseFile(fset, filepath.Join(f.Repo, dir, n), nil, 0)
+		if err != nil {
+			continue
+		}
+		for _, d := range af.Decls {
+			fd, ok := d.(*ast.FuncDecl)
+			if !ok || fd.Body == nil {
+				continue
+			}
+			name := fd.Name.Name
+			if fd.Recv != nil && len(fd.Recv.List) > 0 {
+				t := fd.Recv.List[0].Type
+				if st, ok := t.(*ast.StarExpr); ok {
+					t = st.X
+				}
+				if id, ok := t.(*ast.Ident); ok {
+					name = id.Name + "." + name
+				}
+			}
+			out[name] = fd
+		}
+	}
+	return out
+}
+
+// acceptanceStateWriters: "no handled message may weaken the acceptance state".  Which code can
+// change the replay buffer at all: the methods of proto.MessageIDBuf that write b.buf, the
+// methods of the MessageBuf interface, and every use of c.messageIDBuf in package mtproto
+// (function:method called on it, or function:other for any other use such as a type assertion).
+func acceptanceStateWriters(f *hc.Facts) {
+	quote := func(xs []string) string {
+		sort.Strings(xs)
+		q := make([]string, len(xs))
+		for i, x := range xs {
+			q[i] = strconv.Quote(x)
+		}
+		return "[" + strings.Join(q, ", ") + "]"
+	}
+	src := func(n ast.Node) string {
+		var b strings.Builder
+		printer.Fprint(&b, token.NewFileSet(), n)
+		return flat(b.String())
+	}
+	var writers []string
+	for name, fd := range pkgFuncs(f, "proto") {
+		if !strings.HasPrefix(name, "MessageIDBuf.") {
+			continue
+		}
+		writes := false
+		ast.Inspect(fd.Body, func(n ast.Node) bool {
+			switch x := n.(type) {
+			case *ast.AssignStmt:
+				for _, l := range x.Lhs {
+					if s := src(l); strings.HasPrefix(s, "b.buf") {
+						writes = true
+					}
+				}
+			case *ast.IncDecStmt:
+				if strings.HasPrefix(src(x.X), "b.buf") {
+					writes = true
+				}
+			case *ast.CallExpr: // copy(b.buf, …), clear(b.buf), append to it
+				if fn := src(x.Fun); (fn == "copy" || fn == "clear") && len(x.Args) > 0 && strings.HasPrefix(src(x.Args[0]), "b.buf") {
+					writes = true
+				}
+			}
+			return true
+		})
+		if writes {
+			writers = append(writers, strings.TrimPrefix(name, "MessageIDBuf."))
+		}
+	}
+	f.Raw("def bufWriters : List String := " + quote(writers) + " -- methods of proto.MessageIDBuf that write b.buf")
+	var uses []string
+	for name, fd := range pkgFuncs(f, "mtproto") {
+		short := name
+		if i := strings.Index(short, "."); i >= 0 {
+			short = short[i+1:]
+		}
+		var stack []ast.Node
+		ast.Inspect(fd.Body, func(n ast.Node) bool {
+			if n == nil {
+				stack = stack[:len(stack)-1]
+				return true
+			}
+			stack = append(stack, n)
+			se, ok := n.(*ast.SelectorExpr)
+			if !ok || se.Sel.Name != "messageIDBuf" {
+				return true
+			}
+			use := "other"
+			if len(stack) >= 3 {
+				if m, ok := stack[len(stack)-2].(*ast.SelectorExpr); ok && m.X == se {
+					if ce, ok := stack[len(stack)-3].(*ast.CallExpr); ok && ce.Fun == m {
+						use = m.Sel.Name
+					}
+				}
+			}
+			uses = append(uses, short+":"+use)
+			return true
+		})
+	}
+	f.Raw("def bufUses : List String := " + quote(uses) + " -- every use of <conn>.messageIDBuf in package mtproto: function:method (or function:other)")
+	// the interface the connection sees
+	var methods []string
+	fset := token.NewFileSet()
+	if af, err := parser.ParseFile(fset, filepath.Join(f.Repo, "mtproto", "conn.go"), nil, 0); err == nil {
+		ast.Inspect(af, func(n ast.Node) bool {
+			ts, ok := n.(*ast.TypeSpec)
+			if !ok || ts.Name.Name != "MessageBuf" {
+				return true
+			}
+			if it, ok := ts.Type.(*ast.InterfaceType); ok {
+				for _, m := range it.Methods.List {
+					for _, nm := range m.Names {
+						methods = append(methods, nm.Name)
+					}
+					if len(m.Names) == 0 {
+						methods = append(methods, "embedded:"+src(m.Type))
+					}
+				}
+			}
+			return false
+		})
+	}
+	f.Raw("def messageBufMethods : List String := " + quote(methods) + " -- methods of interface mtproto.MessageBuf")
+	// message handlers must not touch the session id or the key either
+	var touch []string
+	for name, fd := range pkgFuncs(f, "mtproto") {
+		short := name
+		if i := strings.Index(short, "."); i >= 0 {
+			short = short[i+1:]
+		}
+		if !strings.HasPrefix(short, "handle") || short == "handleAuthKeyNotFound" || short == "handleClose" {
+			continue
+		}
+		ast.Inspect(fd.Body, func(n ast.Node) bool {
+			if se, ok := n.(*ast.SelectorExpr); ok {
+				switch se.Sel.Name {
+				case "sessionID", "authKey", "permKey", "messageIDBuf":
+					if id, ok := se.X.(*ast.Ident); ok && id.Name == "c" {
+						touch = append(touch, short+":"+se.Sel.Name)
+					}
+				}
+			}
+			return true
+		})
+	}
+	f.Raw("def handlersTouchingAcceptanceState : List String := " + quote(touch) + " -- handle* functions that mention c.sessionID / c.authKey / c.permKey / c.messageIDBuf")
 }
 
 // checkMessageIDShape: which id types pass, and the two time comparisons with their operator and
@@ -694,8 +861,9 @@ func (f frame) encode(r *hc.RNG, key, otherKey crypto.AuthKey, counter uint32) [
 }
 
 type recorder struct {
-	mu    sync.Mutex
-	calls []uint32
+	mu       sync.Mutex
+	calls    []uint32
+	sessions int
 }
 
 func (h *recorder) OnMessage(b *bin.Buffer) error {
@@ -710,7 +878,20 @@ func (h *recorder) OnMessage(b *bin.Buffer) error {
 	h.mu.Unlock()
 	return nil
 }
-func (h *recorder) OnSession(mtproto.Session) error { return nil }
+func (h *recorder) OnSession(mtproto.Session) error {
+	h.mu.Lock()
+	h.sessions++
+	h.mu.Unlock()
+	return nil
+}
+
+func (h *recorder) takeSessions() int {
+	h.mu.Lock()
+	defer h.mu.Unlock()
+	n := h.sessions
+	h.sessions = 0
+	return n
+}
 func (h *recorder) take() []uint32 {
 	h.mu.Lock()
 	defer h.mu.Unlock()
@@ -1127,6 +1308,199 @@ func runReadLoop(seed uint64, kind string) (out loopOutcome, frames []loopFrame)
 	return
 }
 
+// ---------------------------------------------------------------------------------- (v) service messages and replays
+
+// No handled message may weaken the acceptance state: histories that interleave every kind of
+// message the connection handles itself with byte-for-byte replays of earlier frames (the service
+// frames included).
+
+var svcKinds = []string{"probe", "new_session_created", "bad_server_salt", "bad_msg_notification", "future_salts", "pong", "msgs_ack", "container", "gzip", "rpc_result", "msg_detailed_info"}
+
+func tl(e bin.Encoder) []byte {
+	var b bin.Buffer
+	if err := e.Encode(&b); err != nil {
+		panic(err)
+	}
+	return b.Buf
+}
+
+func probeBody(counter uint32) []byte {
+	var h bin.Buffer
+	h.PutUint32(probeTypeID)
+	h.PutUint32(counter)
+	return h.Buf
+}
+
+func svcPayload(r *hc.RNG, kind string, counter uint32, nowSec int) []byte {
+	switch kind {
+	case "new_session_created":
+		return tl(&mt.NewSessionCreated{FirstMsgID: int64(r.U64() >> 2 << 2), UniqueID: int64(r.U64()), ServerSalt: int64(r.U64())})
+	case "bad_server_salt":
+		return tl(&mt.BadServerSalt{BadMsgID: int64(r.U64() >> 2 << 2), BadMsgSeqno: 1, ErrorCode: 48, NewServerSalt: int64(r.U64())})
+	case "bad_msg_notification":
+		return tl(&mt.BadMsgNotification{BadMsgID: int64(r.U64() >> 2 << 2), BadMsgSeqno: 1, ErrorCode: hc.Pick(r, 16, 17, 32, 33)})
+	case "future_salts":
+		return tl(&mt.FutureSalts{ReqMsgID: 4, Now: nowSec, Salts: []mt.FutureSalt{{ValidSince: nowSec, ValidUntil: nowSec + 3600, Salt: int64(r.U64())}}})
+	case "pong":
+		return tl(&mt.Pong{MsgID: 4, PingID: int64(r.U64())})
+	case "msgs_ack":
+		return tl(&mt.MsgsAck{MsgIDs: []int64{4, 8}})
+	case "rpc_result":
+		return tl(&proto.Result{RequestMessageID: int64(r.U64() >> 2 << 2), Result: tl(&mt.MsgsAck{MsgIDs: []int64{4}})})
+	case "msg_detailed_info":
+		return tl(&mt.MsgDetailedInfo{MsgID: 4, AnswerMsgID: 5, Bytes: 8, Status: 0})
+	case "gzip":
+		return tl(&proto.GZIP{Data: probeBody(counter)})
+	case "container":
+		var c proto.MessageContainer
+		for k, n := 0, r.Range(1, 3); k < n; k++ {
+			inner := hc.Pick(r, "probe", "new_session_created", "future_salts", "pong", "msgs_ack", "bad_server_salt")
+			body := probeBody(counter)
+			if inner != "probe" {
+				body = svcPayload(r, inner, counter, nowSec)
+			}
+			c.Messages = append(c.Messages, proto.Message{ID: int64(r.U64()>>3<<2) | 1, SeqNo: 2 * k, Bytes: len(body), Body: body})
+		}
+		return tl(&c)
+	}
+	return probeBody(counter)
+}
+
+// sealFrame encrypts a payload as the server would (12..27 bytes of padding).
+func sealFrame(r *hc.RNG, key crypto.AuthKey, session, msgID int64, seqNo int32, payload []byte) (wire []byte, padding int) {
+	var p bin.Buffer
+	p.PutLong(int64(r.U64()))
+	p.PutLong(session)
+	p.PutLong(msgID)
+	p.PutInt32(seqNo)
+	p.PutInt32(int32(len(payload)))
+	p.Put(payload)
+	padding = (16 - ((32 + len(payload)) % 16)) % 16
+	if padding < 12 {
+		padding += 16
+	}
+	pad := make([]byte, padding)
+	r.Read(pad)
+	p.Put(pad)
+	msgKey := crypto.MessageKey(key.Value, p.Buf, crypto.Server)
+	aesKey, iv := crypto.Keys(key.Value, msgKey, crypto.Server)
+	block, err := aes.NewCipher(aesKey[:])
+	if err != nil {
+		panic(err)
+	}
+	enc := make([]byte, len(p.Buf))
+	ige.EncryptBlocks(block, iv[:], enc, p.Buf)
+	var out bin.Buffer
+	if err := (crypto.EncryptedMessage{AuthKeyID: key.ID, MsgKey: msgKey, EncryptedData: enc}).Encode(&out); err != nil {
+		panic(err)
+	}
+	return out.Buf, padding
+}
+
+type svcFrame struct {
+	kind     string
+	now      int64
+	msgID    int64
+	seqNo    int32
+	dataLen  int
+	padding  int
+	wire     []byte
+	replayOf int // index of the frame whose bytes are sent again, -1 for a new frame
+}
+
+// runService drives one connection through a history of service frames and replays.
+func runService(c *hc.Ctx, r *hc.RNG) (line, impl string, nontrivial bool) {
+	key := randKey(r)
+	session := int64(r.U64())
+	n := hc.Pick(r, 2, 3, 5, 100)
+	clk := neo.NewTime(time.Unix(0, 0))
+	rec := &recorder{}
+	count := r.Range(4, 40)
+	conn := mtproto.VerifC07NewConn(mtproto.Options{Clock: clk, Random: r, Key: key, Handler: rec, Cipher: crypto.NewClientCipher(r)}, session, n, count+1)
+	defer mtproto.VerifC07Close(conn)
+	now := genNow(r)
+	var frames []svcFrame
+	var lb strings.Builder
+	fmt.Fprintf(&lb, "conn %d %d", session, n)
+	var obs []byte
+	w := &window{n: n}
+	failed := false
+	replays, services := 0, 0
+	for i := 0; i < count; i++ {
+		now += int64(r.Intn(2 * int(sec)))
+		var f svcFrame
+		if len(frames) > 0 && r.Chance(45) { // the very same bytes again
+			j := len(frames) - 1 - r.Intn(min(len(frames), 4))
+			if r.Chance(25) {
+				j = r.Intn(len(frames))
+			}
+			f = frames[j]
+			if f.replayOf < 0 {
+				f.replayOf = j
+			}
+			f.now = now
+			replays++
+		} else {
+			kind := hc.Pick(r, svcKinds...)
+			if r.Chance(30) {
+				kind = "new_session_created"
+			}
+			t := now + int64(r.Range(-20, 5))*sec + int64(r.Intn(int(sec)))
+			f = svcFrame{kind: kind, now: now, replayOf: -1, msgID: idAt(t)&^3 | hc.Pick(r, int64(1), int64(3)), seqNo: int32(r.Intn(1<<20))*2 + 1}
+			payload := svcPayload(r, kind, uint32(i+1), int(now/sec))
+			f.dataLen = len(payload)
+			f.wire, f.padding = sealFrame(r, key, session, f.msgID, f.seqNo, payload)
+			if kind != "probe" {
+				services++
+			}
+		}
+		frames = append(frames, f)
+		fmt.Fprintf(&lb, " %d,1,%d,%d,%d,%d,%d", f.now, session, f.msgID, f.seqNo, f.dataLen, f.padding)
+		clk.Set(time.Unix(0, f.now))
+		var err error
+		func() {
+			defer func() {
+				if p := recover(); p != nil {
+					err = fmt.Errorf("panic: %v", p)
+					if !failed {
+						failed = true
+						c.Fail("frame-panic", lb.String(), fmt.Sprintf("frame %d (%s): %v", i, f.kind, p))
+					}
+				}
+			}()
+			err = mtproto.VerifC07ConsumeMessage(context.Background(), conn, &bin.Buffer{Buf: append([]byte{}, f.wire...)})
+		}()
+		calls, acks, sessions := rec.take(), mtproto.VerifC07Acks(conn), rec.takeSessions()
+		processed := len(acks) > 0 || len(calls) > 0 || sessions > 0
+		if processed {
+			obs = append(obs, 'H')
+		} else {
+			obs = append(obs, '-')
+		}
+		if failed {
+			continue
+		}
+		okFresh, why := fresh(f.now, f.msgID)
+		ok := okFresh && w.verdict(f.msgID)
+		if okFresh && !ok {
+			why = "replay"
+		}
+		if ok {
+			w.add(f.msgID)
+		}
+		if !ok && processed {
+			failed = true
+			what := "a " + f.kind + " frame"
+			if f.replayOf >= 0 {
+				what = fmt.Sprintf("the byte-for-byte replay of frame %d (%s)", f.replayOf, f.kind)
+			}
+			c.Fail("service-history-accepted-"+why, lb.String(), fmt.Sprintf("frame %d, %s, must be dropped (%s) but was processed: handler calls %v, OnSession calls %d, acks %v, err=%v", i, what, why, calls, sessions, acks, err))
+		}
+	}
+	c.Count(fmt.Sprintf("service.N=%d", n))
+	return lb.String(), string(obs), replays > 0 && services > 0
+}
+
 // ---------------------------------------------------------------------------------- run
 
 func run(c *hc.Ctx) error {
@@ -1301,6 +1675,15 @@ func run(c *hc.Ctx) error {
 		_ = probe // the short-padding probe is compared too since crypto repaired D2 (11c870b0c)
 	}
 
+	// ---- (v) histories of connection-handled service messages interleaved with replays
+	nSvc := c.N(1500, 40000)
+	for i := 0; i < nSvc; i++ {
+		line, impl, nt := runService(c, r.Fork())
+		c.Eval(line, nt)
+		c.Count("service.history")
+		add(line, impl)
+	}
+
 	// ---- (iv) the read loop: whole connections (public New/Run), frames handled concurrently
 	nLoop := c.N(12, 120)
 	type lres struct {
@@ -1386,7 +1769,7 @@ func run(c *hc.Ctx) error {
 			c.Res.TracesValidated++
 		}
 	}
-	c.Res.Rule = "buffer histories: N ∈ {1,2,3,10,100}, 1..400 ids drawn from a universe a few times N (uniform / mostly increasing with replays / decreasing / jittered), non-trivial = contains a duplicate and more than N distinct ids; checkMessageID: ids at ±6 ns of both window boundaries, inside, far, arbitrary bits, negative int32 fraction, all 4 types (all non-trivial); frame sequences through consumeMessage on one connection: fresh/replayed/boundary ids, wrong session, foreign key, flipped msg_key/ciphertext bit, client-side (reflected) encryption, padding 12/1024/>1024, length % 4 ≠ 0, odd/even seq_no, clock moving; non-trivial = at least 2 frames; read loop: whole connections through the public New/Run, 5..90 frames delivered back to back and handled in concurrent goroutines (replays racing with their originals, wrong session, stale/future/client-typed ids; optionally an undecryptable last frame), checked order-independently; distinct = distinct input line"
+	c.Res.Rule = "buffer histories: N ∈ {1,2,3,10,100}, 1..400 ids drawn from a universe a few times N (uniform / mostly increasing with replays / decreasing / jittered), non-trivial = contains a duplicate and more than N distinct ids; checkMessageID: ids at ±6 ns of both window boundaries, inside, far, arbitrary bits, negative int32 fraction, all 4 types (all non-trivial); frame sequences through consumeMessage on one connection: fresh/replayed/boundary ids, wrong session, foreign key, flipped msg_key/ciphertext bit, client-side (reflected) encryption, padding 12/1024/>1024, length % 4 ≠ 0, odd/even seq_no, clock moving; non-trivial = at least 2 frames; service histories: 4..40 frames on one connection mixing every message type the connection handles itself (new_session_created, bad_server_salt, bad_msg_notification, future_salts, pong, msgs_ack, containers of these, gzip, rpc_result, msg_detailed_info; all with odd seq_no so that an acknowledgement shows acceptance) with byte-for-byte replays of earlier frames, non-trivial = at least one service frame and one replay; read loop: whole connections through the public New/Run, 5..90 frames delivered back to back and handled in concurrent goroutines (replays racing with their originals, wrong session, stale/future/client-typed ids; optionally an undecryptable last frame), checked order-independently; distinct = distinct input line"
 	c.PartialNote("the padding bounds 12..1024 and length % 4 are enforced inside crypto.Cipher.Decrypt (C04/C05; the lower bound was defect D2, repaired by /repo 11c870b0c): the C07 model takes them as the cipher's interface, the harness still sends frames with 0/4/8 and >1024 bytes of padding through the real code")
 	c.PartialNote("decryption under the session key is abstracted in the model as a boolean (auth-key id and msg_key match); that a tampered or foreign ciphertext fails that test is C05's cryptographic assumption, exercised here with 4 kinds of bad frames")
 	c.PartialNote("in the read-loop part frames are handled by concurrent goroutines in an order the Go scheduler chooses; it is checked order-independently (at most once per id, never a frame that must be dropped, every valid id exactly once while fewer than 100 ids are stored, liveness of Run); the sequential frame sequences of part (iii) are compared frame by frame with the model")
